@@ -27,7 +27,7 @@ func ValidateTrace(module, cfg string, lines [][]byte, dfs bool, timeout time.Du
 	if timeout == 0 {
 		timeout = 10 * time.Minute
 	}
-	res, err := RunTLC(TLCOpts{Module: module, Cfg: cfg, Workers: 1, Timeout: timeout, DFS: dfs,
+	res, err := RunTLC(TLCOpts{HeapMB: 3500, Module: module, Cfg: cfg, Workers: 1, Timeout: timeout, DFS: dfs,
 		Files: map[string][]byte{"trace.ndjson": buf.Bytes()}})
 	tr := &TraceResult{Lines: len(lines), TLC: res}
 	if err != nil {
